@@ -478,6 +478,53 @@ def restore_into_an_old_format_index(chk):
             shutil.rmtree(os.path.dirname(q), ignore_errors=True)
 
 
+def restore_of_a_large_archive(chk, n=300):
+    """"A restore that reports success has recorded every version in the archive and each has its directory" -- also for an
+    archive with more versions than any plausible internal batch size (300 versions of 3 tasks, built by hand in the
+    format `cond archive` writes).  (Seed C12/k: rows were loaded in batches of 256 and the row that filled a batch was
+    dropped -- restore exited 0 with every directory copied and one version unrecorded, to be deleted by the next gc.)"""
+    base = new_dir("bigarch")
+    stage = os.path.join(base, "x")
+    os.makedirs(stage)
+    rows = []
+    for i in range(n):
+        task = ("//big:t%d" % (i % 3)) if i % 2 else ("//big/deep:u%d" % (i % 3))
+        rows.append((task, 1600000000 + i, None, 0))
+        d = os.path.join(stage, au.vdir_rel(task, 1600000000 + i))
+        os.makedirs(d)
+        open(os.path.join(d, "r"), "w").write("%d\n" % i)
+    conn = sqlite3.connect(os.path.join(stage, au.AINDEX))
+    conn.execute("CREATE TABLE version_index (task_identifier TEXT NOT NULL, timestamp INTEGER NOT NULL, git_commit_hash TEXT, has_uncommitted_changes INTEGER NOT NULL, PRIMARY KEY (task_identifier, timestamp))")
+    conn.executemany("INSERT INTO version_index VALUES (?, ?, ?, ?)", rows)
+    conn.execute("PRAGMA user_version = 2")
+    conn.commit()
+    conn.close()
+    apath = os.path.join(base, "big.tar.gz")
+    au.repack(stage, apath, rows=rows)
+    q = implrun.make_project({"big/COND": "".join('run_experiment(name="t%d", run="true")\n' % k for k in range(3)),
+                              "big/deep/COND": "".join('run_experiment(name="u%d", run="true")\n' % k for k in range(3))}, name="bigtgt")
+    res = implrun.run_cond(["restore", apath], q, timeout=300)
+    got = sorted((r[0], r[1]) for r in au.project_rows(q))
+    want = sorted((r[0], r[1]) for r in rows)
+    chk.coverage["evaluations"] += 1
+    chk.count("large-archive", "%d versions" % n)
+    msg = None
+    if res.code != 0:
+        msg = "exit status %s: %s" % (res.code, implrun.strip_ansi(res.err).strip()[-200:])
+    elif got != want:
+        missing = [k for k in want if k not in got]
+        msg = "reported success, but %d of the %d versions of the archive are not recorded (first: %r)" % (len(missing), n, missing[:2])
+    else:
+        nodir = [k for k in want if not os.path.isdir(os.path.join(q, au.OUT, au.vdir_rel(*k)))]
+        if nodir:
+            msg = "reported success, but %d recorded versions have no directory (first: %r)" % (len(nodir), nodir[:2])
+    if msg:
+        chk.violation("impl-violation", "`cond restore` of an archive with %d versions: %s" % (n, msg),
+                      {"input": {"part": "large-archive", "versions": n}, "impl_observation": {"exit": res.code, "recorded": len(got)}, "oracle_verdict": msg}, match_key={"part": "large-archive"}, size=3)
+    else:
+        chk.coverage["traces_validated_against_impl"] += 1
+
+
 def run(tier, seed, replay=None):
     chk = Check("C12", tier, seed)
     # (the stale-staging defect D18 found by this check is fixed in /repo by commit a192dfb; see known_findings.jsonl)
@@ -496,6 +543,7 @@ def run(tier, seed, replay=None):
     else:
         durability_assumption(chk)
         restore_into_an_old_format_index(chk)
+        restore_of_a_large_archive(chk, 300 if tier == "quick" else 1100)
         au.staging_collision(chk, "C12")     # D23: restore vs. a package named like its staging directory
         jobs = []
         # corpus: every fault once on a fixed-shape project, then random subsets
